@@ -156,14 +156,14 @@ func NewPackfileReader(r io.ReadCloser) (*PackfileReader, error) {
 
 func (r *PackfileReader) readVersion() error {
 	b := r.buf.Buffer(4)
-	_, err := r.r.Read(b)
+	_, err := io.ReadFull(r.r, b)
 	if err != nil {
 		return fmt.Errorf("error reading PACK string: %v", err)
 	}
 	if string(b) != "PACK" {
 		return fmt.Errorf("not a packfile")
 	}
-	_, err = r.r.Read(b)
+	_, err = io.ReadFull(r.r, b)
 	if err != nil {
 		return fmt.Errorf("error reading packfile version: %v", err)
 	}
